@@ -4,4 +4,5 @@ AnonSmall == {[kind |-> "allow", action |-> "*", resource |-> "*", name |-> "*"]
               [kind |-> "deny", action |-> "*", resource |-> "*", name |-> "*"]}
 AnonMore == AnonSmall \cup {[kind |-> "allow", action |-> "fetch", resource |-> "topic", name |-> "t*"],
                             [kind |-> "deny", action |-> "produce", resource |-> "*", name |-> "t"]}
+AnonNone == {}
 ====
